@@ -230,6 +230,7 @@ func classifyReply(frame []byte) MReply {
 type recvObs struct {
 	Flags  uint64
 	Err    error
+	NoOut  bool // the caller passed nil as out parameter (it does not want the values)
 	Out    json.RawMessage
 	Panic  string
 	OutSet bool
@@ -380,6 +381,9 @@ func judgeReceive(frame []byte, ended bool, o recvObs) (class, detail string) {
 	if o.Flags&^uint64(varlink.Continues) != 0 {
 		return "wrong-flags", fmt.Sprintf("receive returned flags %d", o.Flags)
 	}
+	if o.NoOut {
+		return "", ""
+	}
 	if d := jEqualParams(m.Params, o.Out); d != "" {
 		return "wrong-parameters", "parameters differ from the frame's: " + d
 	}
@@ -520,12 +524,22 @@ func c11One(r *fw.Run, srv *RawServer, c *c11Case) {
 			break // the stream stays open: a further receive would (correctly) block
 		}
 		var o recvObs
+		// one receive in five is made by a caller that does not want the values (nil out parameter, as the generated
+		// stubs of methods without output pass it)
+		o.NoOut = (i+len(c.Stream))%5 == 4
 		o.Panic = catch(func() {
+			if o.NoOut {
+				o.Flags, o.Err = recv(ctx, nil)
+				return
+			}
 			var out json.RawMessage
 			o.Flags, o.Err = recv(ctx, &out)
 			o.Out = out
 		})
 		r.Count("receive_calls", 1)
+		if o.NoOut {
+			r.Count("receive_calls_with_nil_out", 1)
+		}
 		if frame != nil {
 			m := classifyReply(frame)
 			r.Distinct("frame_classes", fmt.Sprintf("%d/%v/%v/%v", m.Kind, m.Error != "", m.Continues, m.Params != nil))
@@ -765,7 +779,7 @@ func replayC11(r *fw.Run, raw json.RawMessage) {
 func init() {
 	fw.Register(&fw.Engine{
 		ID: "C11", Level: "fault_enumeration",
-		Rule: "reply streams = sequences of valid reply / continues / error frames with generated parameters (number spellings beyond 2^53 and 2^64, exponents, unicode), 50 shape cases (null, {}, non-object values, non-boolean continues, non-string error, the four org.varlink.service errors with good / missing / ill-typed / non-object parameters, case-variant and duplicate members, trailing garbage, invalid UTF-8), byte-level mutants (flips, deleted/inserted bytes and NULs), random bytes, a valid frame followed by a tail without NUL. A case = (stream, server death offset k, segmentation): EVERY k in 0..len(stream) plus 3 partitions of the complete stream (one write, byte-wise, random with pauses). The real Connection calls Send once and receive until the stream ends. Oracle per receive call (model A.3): valid reply => parameters number-exact and Continues iff set; error frame => the dedicated typed error with the right field for the four reserved names, else *varlink.Error with exactly that name and JSON-equal parameters; invalid JSON / wrong shape => some error; stream ended before the NUL => io.ErrUnexpectedEOF; never a panic. Plus all 16 flag words x 3 parameter kinds: forbidden combinations are refused with zero bytes on the wire (barrier call on the same connection), legal ones put exactly the requested members on the wire and never continues. non-trivial = stream longer than one byte / non-zero flag word; distinct by (stream hash, offset, partition).",
+		Rule: "reply streams = sequences of valid reply / continues / error frames with generated parameters (number spellings beyond 2^53 and 2^64, exponents, unicode), 50 shape cases (null, {}, non-object values, non-boolean continues, non-string error, the four org.varlink.service errors with good / missing / ill-typed / non-object parameters, case-variant and duplicate members, trailing garbage, invalid UTF-8), byte-level mutants (flips, deleted/inserted bytes and NULs), random bytes, a valid frame followed by a tail without NUL. A case = (stream, server death offset k, segmentation): EVERY k in 0..len(stream) plus 3 partitions of the complete stream (one write, byte-wise, random with pauses). The real Connection calls Send once and receive until the stream ends. Oracle per receive call (model A.3): valid reply => parameters number-exact and Continues iff set; error frame => the dedicated typed error with the right field for the four reserved names, else *varlink.Error with exactly that name and JSON-equal parameters; invalid JSON / wrong shape => some error; stream ended before the NUL => io.ErrUnexpectedEOF; never a panic. Plus all 16 flag words x 3 parameter kinds: forbidden combinations are refused with zero bytes on the wire (barrier call on the same connection), legal ones put exactly the requested members on the wire and never continues. non-trivial = stream longer than one byte / non-zero flag word; distinct by (stream hash, offset, partition). One receive in five passes nil as out parameter (values not wanted): same flags, same errors.",
 		Assumptions: []string{"the scripted server reads the complete request frame before it dies, so the client sees an orderly end of stream, not a reset", "frames with case-variant or duplicate members are judged for panics only"},
 		Run:         runC11, Replay: replayC11, CrashIsViolation: true, MinEvals: 1000,
 		QuickTimeout: 15 * time.Minute, ThoroughTimeout: 60 * time.Minute,
